@@ -86,7 +86,7 @@ ALGS = ["omitted", "Auto", "LU", "Cholesky", "CG", "GMRES"]
 STEPS = ["matvec", "rmatvec", "matmat", "T", "H", "add", "sub", "mulc", "divc", "neg", "matmul", "kron", "kronsum", "bd", "annotate",
          "densify", "getitem_row", "getitem_slice", "getitem_idx", "to_none", "inv", "solve", "logdet", "diag", "trace", "exp", "sqrt",
          "pow", "eig", "svd", "cholesky", "plu", "cg", "gmres", "lanczos", "arnoldi", "hutch", "flatten", "inv_left", "inv_T", "rmatmat", "to_dtype", "eigmax", "eigmax",
-         "repeat"]
+         "krylov_fn", "repeat"]
 
 
 @st.composite
@@ -107,6 +107,11 @@ def step(draw, n_ops, n_steps_so_far):
         s["k"] = draw(st.integers(1, 2))
     if name == "hutch":
         s["key"] = draw(st.integers(1, 1000))
+    if name == "krylov_fn":
+        # round 6: a matrix function through an explicit Krylov algorithm applied to caller-owned operands, among them
+        # one with an exactly zero column and a zero vector
+        s["f"] = draw(st.sampled_from(["exp", "sqrt", "log"]))
+        s["arg"] = draw(st.sampled_from(["b", "Bz", "z0", "Bz", "B"]))
     if name == "repeat":
         s["r"] = draw(st.integers(0, n_steps_so_far - 1))
     return s
@@ -190,7 +195,9 @@ class Ctx:
         self.Bz[:, -1] = 0  # a right-hand side with a zero column ...
         self.X0 = rng.integers(1, 4, size=(n, 2)).astype(self.B.dtype)  # ... and a non-zero guess for every column
         self.BL = np.ascontiguousarray(rng.integers(-3, 4, size=(2, n)).astype(np.complex128 if cplx else np.float64))  # left operand, C order
-        self.arrays = {"b": self.b, "B": self.B, "x0": self.x0, "v": self.v, "idx": self.idx, "idx2": self.idx2, "BL": self.BL, "Bz": self.Bz, "X0": self.X0}
+        self.z0 = np.zeros(n)
+        self.arrays = {"b": self.b, "B": self.B, "x0": self.x0, "v": self.v, "idx": self.idx, "idx2": self.idx2, "BL": self.BL, "Bz": self.Bz, "X0": self.X0,
+                       "z0": self.z0}
         self.n_base = len(self.ops)
 
     def alg(self, name):
@@ -275,6 +282,9 @@ class Ctx:
             return L.sqrt(A) @ b
         if name == "pow":
             return L.pow(A, s["p"]) @ b
+        if name == "krylov_fn":
+            alg = L.Lanczos(max_iters=self.n, tol=1e-10) if A.isa(cola.SelfAdjoint) else L.Arnoldi(max_iters=self.n, tol=1e-10)
+            return getattr(L, s.get("f", "exp"))(A, alg) @ self.arrays[s.get("arg", "Bz")]
         if name == "eig":
             return L.eig(A, min(s["k"], self.n))
         if name == "eigmax":  # default algorithm object (one shared instance per process)
